@@ -429,7 +429,12 @@ Definition structure_ok : bool :=
    configure_zero_is_all && configure_refuses_extra && stub_update_guard &&
    (* plugin.UpdateContainers hands exactly the request's list to updateContainers and returns its
       failed list and error; Stub.UpdateContainers tests for a missing runtime first *)
-   existsb (String.eqb "failed, err := p.r.updateContainers(ctx, req.Update)") plugin_update_body &&
+   (* … and does nothing else (in particular takes no lock before the adaptation's): a log line, the
+      call, the return *)
+   (match plugin_update_body with
+    | [l; c; _] => String.prefix "log." l && String.eqb c "failed, err := p.r.updateContainers(ctx, req.Update)"
+    | _ => false
+    end) &&
    String.eqb plugin_update_return "return &UpdateContainersResponse{ Failed: failed, }, err" &&
    (match stub_update_body with g :: _ => String.eqb g "if stub.runtime == nil" | [] => false end) &&
    (* removeClosedPlugins keeps the plugins that are not closed *)
@@ -461,8 +466,27 @@ Definition relay_update (us : list U) (cb : callback) : (list U * option string)
 (* stub.UpdateContainers: if stub.runtime == nil { return nil, ErrNoService } *)
 Definition stub_update (started : bool) (us : list U) (cb : callback) : (list U * option string) * list (list U) :=
   if started then relay_update us cb else (([], Some err_no_service), []).
+
+(* The call-back takes time (dur: its own run time plus the wait for the adaptation mutex behind
+   requests and other plugins' updates).  Stub.UpdateContainers makes the call under a context; a
+   context with deadline d gives up on a call that lasts d or longer and the plugin is handed the
+   deadline error instead of the call-back's result (which still ran). *)
+Definition stub_update_timed (deadline : option N) (started : bool) (us : list U) (cb : callback) (dur : N)
+  : (list U * option string) * list (list U) :=
+  match deadline with
+  | Some d => if (started && N.leb d dur)%bool then (([], Some "context deadline exceeded"), [us])
+              else stub_update started us cb
+  | None => stub_update started us cb
+  end.
 End Updates.
-Arguments relay_update {U}. Arguments stub_update {U}.
+Arguments relay_update {U}. Arguments stub_update {U}. Arguments stub_update_timed {U}.
+
+(* the deadline of the context Stub.UpdateContainers calls the runtime under, read off the current
+   source: "ctx := context.Background()" = none; anything else is taken to be bounded by the request
+   time-out the runtime pushes to the stub *)
+Definition stub_update_deadline : option N :=
+  if existsb (String.eqb "ctx := context.Background()") stub_update_body then None
+  else Some default_request_timeout_ms.
 
 (* ------------------------------------------------------------------ *)
 (** * The adaptation mutex                                              *)
